@@ -17,4 +17,5 @@ def second_oracle_case(drv, case, order):
 
 
 def main(ctx):
-    return c02.main(ctx, order=2, pid="C03", tags=("QAA", "QBB", "QAB", "R2"), maxl=3, props="C03", oracle=second_oracle_case)
+    return c02.main(ctx, order=2, pid="C03", tags=("QAA", "QBB", "QAB", "R2"), maxl=3, props="C03All", oracle=second_oracle_case,
+                    extra_modules=["Ecpint.Props.C03", "Ecpint.Props.C03b"])
